@@ -395,7 +395,7 @@ func (fe *FnEnc) run(args []Val) {
 			}
 			if spec != nil {
 				for _, inv := range spec.Invariants {
-					t := fe.evalAtLoop(b, inv, nil)
+					t := fe.evalAtLoopAssume(b, inv)
 					fe.s.assert(implies(fe.guard, t))
 				}
 				for _, h := range spec.Hints {
